@@ -104,6 +104,8 @@ def build(variant="plain", verbose=True):
     fcntl.flock(lock, fcntl.LOCK_EX)
     try:
         if os.path.exists(os.path.join(out, "ok")):
+            try: os.utime(out)            # in use: keeps it away from prune()
+            except OSError: pass
             if verbose:
                 print(f"[build] tree {th} ({variant}): reused", flush=True)
             return out
@@ -184,9 +186,14 @@ def build(variant="plain", verbose=True):
 def prune(variant, keep):
     ds = [os.path.join(BUILD_ROOT, d) for d in os.listdir(BUILD_ROOT) if d.endswith("-" + variant)]
     ds.sort(key=lambda d: os.path.getmtime(d), reverse=True)
-    for d in ds[2:]:
-        if d != keep:
-            shutil.rmtree(d, ignore_errors=True)
+    # other runs (other trees) may be using their binaries right now: only directories that nobody has touched for an hour go
+    now = time.time()
+    for d in ds[4:]:
+        try:
+            if d != keep and now - os.path.getmtime(d) > 3600:
+                shutil.rmtree(d, ignore_errors=True)
+        except OSError:
+            pass
 
 
 class BuildError(Exception):
